@@ -85,3 +85,17 @@ Fixpoint list_backups_n (n : nat) (st : N * N * N) : list N :=
   | O => []
   | S k => let '(g, st') := list_backups_step st in g :: list_backups_n k st'
   end.
+
+(* ext2fs_list_backups for sparse_super2: state = *three (1 at the start); returns (group, new state) *)
+Definition list_backups_ss2_step (b0 b1 gdc st : N) : N * N :=
+  if st =? 1 then
+    (if negb (b0 =? 0) then (b0, 2) else if negb (b1 =? 0) then (b1, 3) else (gdc, 3))
+  else if st =? 2 then
+    (if negb (b1 =? 0) then (b1, 3) else (gdc, 3))
+  else (gdc, st).
+
+Fixpoint list_backups_ss2_n (n : nat) (b0 b1 gdc st : N) : list N :=
+  match n with
+  | O => []
+  | S k => let '(g, st') := list_backups_ss2_step b0 b1 gdc st in g :: list_backups_ss2_n k b0 b1 gdc st'
+  end.
